@@ -39,6 +39,15 @@ PROPS["C03"] = {
             "Lean model, and is consumed by copy-initialisation, const auto& (twice, both alive), auto&&, range-for, by-const-reference argument, reference member of an aggregate and a "
             "decltype(EXPR) return, with same-size arrays allocated, filled and pushed through library operators between binding and reading; a reference-typed operator expression is reported statically; "
             "plus 2000 (5000) x 27 scalar cmplx_t operator cases, zeropad/concatenate/complex/real/imag/conj on every length 0..64; "
+            "PROMOTION (oracle key C03:promotion-value): 37 mixed operator forms x 4 operators (real array with cmplx_t / std::complex scalar on either side and with a complex array, "
+            "complex array with real array / real_t / int on the right incl. the compound forms, real_t / int on the left of a complex array, int scalar with a real array, std::complex "
+            "converted field by field, arr_int meeting real / complex arrays and scalars on either side and in compound forms, real|complex concatenation) on a deterministic sweep of the "
+            "palette {+0,-0,1,-1,2,-3,0.5,5} for every element x scalar-component combination (64 scalars x L=8 through CORR, 64 x L=512 oracle only) plus 402 (6014) random rounds "
+            "(purely real / purely imaginary / (+-0,+-0) / (+-1,+-0) scalars, elements equal to +-scalar components = exact cancellations, all-equal arrays, real-valued and purely imaginary "
+            "complex arrays, the scale classes; thorough also 65537 and 131073 elements): every result BIT-IDENTICAL (sign of zero; NaN=NaN) to the harness's own double evaluation of the "
+            "types.h formula the form stands for (cmplx_t op cmplx_t on the promoted operands (x,+0) for real-on-the-left / scalar-on-the-left forms, cmplx_t op real_t for complex-op-real forms, "
+            "double op double after int -> real_t) and to the same operator applied after an explicit promotion complex(arr) / cmplx_t{x,0} / arr_real(arr_int) / real_t(n) through the library "
+            "(bit-identical for promoting forms; for complex-op-real forms equal as values for + - *, within 4 eps for /, sign-of-zero differences counted in the statistics); "
             "distinct = distinct protocol lines + oracle-only programs (each a different random program); non-trivial = all",
     "technique": "Lean 4 proof (structural induction over an expression language mirroring the overload set; ring homomorphism Cx R -> C for the regenerated cmplx_t formulas) "
                  "+ bit-level (incl. sign of zero) model/implementation correspondence on random programs and on compiled expression forms with temporaries under ASan/UBSan "
